@@ -234,4 +234,17 @@ instance (log : List Entry) : Decidable (DeliveredOnce log) := by unfold Deliver
 instance (log : List Entry) : Decidable (SnapshotsWF log) := by unfold SnapshotsWF; infer_instance
 instance (log : List Entry) : Decidable (ExactlyOnce log) := by unfold ExactlyOnce; infer_instance
 
+/-! ### the two counterexample witnesses (used by `Props/C12.lean` and exported by the driver) -/
+
+/-- (a) trials 1,2,3; complete 1 and 3; update (gets {1,3}); delete 3; complete 2; update -/
+def witnessShortcut : List Op :=
+  [.create .active, .create .active, .create .active, .setStatus 1 .completed, .setStatus 3 .completed,
+   .update .live, .delete 3, .setStatus 2 .completed, .update .live]
+
+/-- (b) complete 1..3; update; delete 3; create (id 3 again); complete it; update -/
+def witnessIdReuse : List Op :=
+  [.create .active, .create .active, .create .active, .setStatus 1 .completed, .setStatus 2 .completed,
+   .setStatus 3 .completed, .update .live, .delete 3, .create .active, .setStatus 3 .completed,
+   .update .live]
+
 end VizierModel.Loader
